@@ -428,8 +428,12 @@ def handle(job: dict) -> dict:
             args += ["--config", str(cfgp)]
             r = CliRunner().invoke(opc_cli.app, args, catch_exceptions=True)
             res["cli_exit"] = r.exit_code
-            res["cli_stderr"] = (r.stderr if r.stderr_bytes is not None else "")[-3000:] if hasattr(r, "stderr_bytes") else ""
-            res["cli_stdout"] = r.stdout[-1000:]
+            try:
+                err = r.stderr
+            except Exception:
+                err = ""
+            res["cli_stderr"] = err if len(err) < 4000 else err[:1500] + "\n...\n" + err[-2000:]
+            res["cli_stdout"] = r.stdout[:500] + r.stdout[-500:]
             if r.exception is not None and not isinstance(r.exception, SystemExit):
                 ex = r.exception
                 if isinstance(ex, CpuLimit):
